@@ -227,78 +227,101 @@ theorem perDomain_first_labels :
     Gen.Normalize.perDomainQueryFilters.all
       (fun e => decide (6 < (e.1.toList.takeWhile (· ≠ '.')).length)) = true := by decide
 
-/-- **a leading `amp-`**: when what follows does not start with an irrelevant label, is already
-decoded, and does not itself start with `amp-` once its irrelevant labels are removed
-(`afterSub`), the hostname steps give the same with and without the prefix -/
-theorem norm_amp_dash_partial (puny : Str → Str) (o : Opts) (ha : o.normalizeAmp = true)
-    (l : Str) (ls : List Str) (hd : ∀ x ∈ l :: ls, '.' ∉ x)
-    (hfirst : ls = [] ∨ isIrrLabel true l = false)
-    (hdec : decodePunycodeHostname puny (afterSub o (join ['.'] (l :: ls))) =
-      afterSub o (join ['.'] (l :: ls)))
-    (honce : startsWith (afterSub o (join ['.'] (l :: ls))) ampDash = false) :
-    hostTail puny o (join ['.'] ((ampDash ++ l) :: ls)) = hostTail puny o (join ['.'] (l :: ls)) := by
+/-- **a leading `amp-` is irrelevant** in front of every decoded host `c` (every label is its own
+`decode_punycode_hostname`) that does not itself start with `amp-` once its irrelevant labels are
+removed (`afterSub`; the prefix is documented once, D19): the hostname steps give the same with
+and without the prefix — whatever follows it, irrelevant labels included (`amp-www.a.com`: the
+cut is followed by a second label pass) -/
+theorem norm_amp_dash (puny : Str → Str) (o : Opts) (ha : o.normalizeAmp = true) (c : Str)
+    (hdec : ∀ x ∈ splitOn c '.', decodePunycodeHostname puny x = x)
+    (honce : startsWith (afterSub o c) ampDash = false) :
+    hostTail puny o (ampDash ++ c) = hostTail puny o c := by
+  -- the label structure of `c`
+  have hd : ∀ x ∈ splitOn c '.', '.' ∉ x := not_mem_of_mem_splitOn '.' c
+  have hj : join ['.'] (splitOn c '.') = c := join_splitOn '.' c
+  cases hL : splitOn c '.' with
+  | nil => exact absurd hL (splitOn_ne_nil c '.')
+  | cons l ls =>
+  rw [hL] at hd hdec hj
+  have ej0 : join ['.'] ((ampDash ++ l) :: ls) = ampDash ++ c := by
+    rw [← hj]
+    cases ls with
+    | nil => simp [join]
+    | cons a b => simp [join]
   rw [hostTail_eq, hostTail_eq]
   simp only [ha, if_true]
-  have key : afterSub o (join ['.'] ((ampDash ++ l) :: ls)) = ampDash ++ afterSub o (join ['.'] (l :: ls)) := by
-    unfold afterSub
-    simp only [ha]
-    have ej0 : join ['.'] ((ampDash ++ l) :: ls) = ampDash ++ join ['.'] (l :: ls) := by
-      cases ls with
-      | nil => simp [join]
-      | cons a b => simp [join]
-    by_cases hs : o.stripIrrelevantSubdomains = true
-    · simp only [hs, if_true]
-      have h1 : ciMatch 'w' 'a' = false := by decide
-      have h2 : ciMatch 'm' 'a' = false := by decide
-      have h3 : ciMatch 'a' 'a' = true := by decide
-      have h4 : ciMatch 'm' 'm' = true := by decide
-      have h5 : ciMatch 'p' 'p' = true := by decide
-      have hirr : isIrrLabel true (ampDash ++ l) = false := by
-        simp [isIrrLabel, wwwOk, litOk, ampDash, matchLit, h1, h2, h3, h4, h5]
-      have hd2 : ∀ x ∈ (ampDash ++ l) :: ls, '.' ∉ x := by
-        intro x hx
-        simp only [List.mem_cons] at hx
-        rcases hx with rfl | hx
-        · simp only [List.mem_append, not_or]
-          exact ⟨by decide, hd l (by simp)⟩
-        · exact hd x (by simp [hx])
-      rw [subdomainSub_join true ((ampDash ++ l) :: ls) (by simp) hd2,
-        subdomainSub_join true (l :: ls) (by simp) hd]
+  -- without the prefix nothing is cut
+  have hR : stripAmpPrefix puny o.stripIrrelevantSubdomains (afterSub o c) = afterSub o c := by
+    simp only [stripAmpPrefix, honce, Bool.false_eq_true, if_false]
+  rw [hR]
+  have hcut : ∀ x : Str, startsWith (ampDash ++ x) ampDash = true ∧ (ampDash ++ x).drop 4 = x := by
+    intro x; simp [startsWith, ampDash]
+  by_cases hs : o.stripIrrelevantSubdomains = true
+  · -- first pass: `amp-l` is no irrelevant label, the other labels are filtered
+    have h1 : ciMatch 'w' 'a' = false := by decide
+    have h2 : ciMatch 'm' 'a' = false := by decide
+    have h3 : ciMatch 'a' 'a' = true := by decide
+    have h4 : ciMatch 'm' 'm' = true := by decide
+    have h5 : ciMatch 'p' 'p' = true := by decide
+    have hirr : isIrrLabel true (ampDash ++ l) = false := by
+      simp [isIrrLabel, wwwOk, litOk, ampDash, matchLit, h1, h2, h3, h4, h5]
+    have hd2 : ∀ x ∈ (ampDash ++ l) :: ls, '.' ∉ x := by
+      intro x hx
+      simp only [List.mem_cons] at hx
+      rcases hx with rfl | hx
+      · simp only [List.mem_append, not_or]
+        exact ⟨by decide, hd l (by simp)⟩
+      · exact hd x (by simp [hx])
+    have hfirst : afterSub o (ampDash ++ c) = ampDash ++ join ['.'] (l :: keepLabels true ls) := by
+      unfold afterSub
+      simp only [hs, ha, if_true]
+      rw [← ej0, subdomainSub_join true ((ampDash ++ l) :: ls) (by simp) hd2]
       cases ls with
       | nil => simp [keepLabels, join]
       | cons l' ls' =>
-        have hl : isIrrLabel true l = false := by
-          rcases hfirst with h | h
-          · cases h
-          · exact h
-        simp only [keepLabels, hirr, hl, Bool.false_eq_true, if_false]
+        simp only [keepLabels, hirr, Bool.false_eq_true, if_false]
         rw [join_dot_cons _ _ (keepLabels_ne_nil true _ (by simp)),
           join_dot_cons _ _ (keepLabels_ne_nil true _ (by simp))]
         simp
-    · have hs' : o.stripIrrelevantSubdomains = false := by simpa using hs
-      simp only [hs', Bool.false_eq_true, if_false]
-      exact ej0
-  rw [key]
-  simp only [stripAmpPrefix, honce, Bool.false_eq_true, if_false]
-  have h1 : startsWith (ampDash ++ afterSub o (join ['.'] (l :: ls))) ampDash = true := by
-    simp [startsWith, ampDash]
-  have h2 : (ampDash ++ afterSub o (join ['.'] (l :: ls))).drop 4 = afterSub o (join ['.'] (l :: ls)) := by
-    simp [ampDash]
-  simp only [h1, if_true, h2, hdec]
+    have hmem : ∀ x ∈ l :: keepLabels true ls, x ∈ l :: ls := by
+      intro x hx
+      rcases List.mem_cons.mp hx with h | h
+      · rw [h]; simp
+      · exact List.mem_cons_of_mem _ (mem_keepLabels true ls x h)
+    have hsecond : subdomainSub true (join ['.'] (l :: keepLabels true ls)) = afterSub o c := by
+      rw [subdomainSub_join true _ (by simp) (fun x hx => hd x (hmem x hx))]
+      unfold afterSub
+      simp only [hs, ha, if_true]
+      rw [← hj, subdomainSub_join true (l :: ls) (by simp) hd]
+      cases ls with
+      | nil => rfl
+      | cons l' ls' => rw [keepLabels_cons_keep true l (l' :: ls') (by simp)]
+    rw [hfirst]
+    simp only [stripAmpPrefix, (hcut _).1, (hcut _).2, if_true, hs]
+    rw [decode_join_fixed puny _ (by simp) (fun x hx => hd x (hmem x hx)) (fun x hx => hdec x (hmem x hx))]
+    exact hsecond
+  · have hs' : o.stripIrrelevantSubdomains = false := by simpa using hs
+    have e1 : afterSub o (ampDash ++ c) = ampDash ++ c := by simp [afterSub, hs']
+    have e2 : afterSub o c = c := by simp [afterSub, hs']
+    rw [e1, e2]
+    simp only [stripAmpPrefix, (hcut _).1, (hcut _).2, if_true, hs', Bool.false_eq_true, if_false]
+    rw [← hj]
+    exact decode_join_fixed puny _ (by simp) hd hdec
 
-/-- the statement without the first hypothesis: a leading `amp-` is irrelevant in front of every
-host that does not itself start with `amp-` -/
-def FullAmpDash : Prop :=
-  ∀ (c : Str), startsWith c ampDash = false →
-    hostTail id {} (ampDash ++ c) = hostTail id {} c
+/-- the hypothesis `honce` cannot be dropped, by design (D19: the code cuts one `amp-`, and
+`T_amp-` is applied once): `amp-amp-a.com` keeps one prefix -/
+theorem ampDash_cut_once :
+    hostTail id {} (ampDash ++ "amp-a.com".toList) ≠ hostTail id {} "amp-a.com".toList := by decide
 
-/-- … is false: `amp-www.a.com` keeps its `www.` (the irrelevant-label pass ran before the
-prefix was cut; known finding KF-C04-2, replayed on the implementation by the oracle) -/
-theorem fullAmpDash_fails : ¬ FullAmpDash := by
-  intro h
-  have := h "www.a.com".toList (by decide)
-  revert this
-  decide
+/-- the shape of the former known finding KF-C04-2 (`amp-` hiding an irrelevant label), and the
+statement's hypotheses on it -/
+example : hostTail id {} "amp-www.a.com".toList = hostTail id {} "www.a.com".toList ∧
+    hostTail id {} "amp-www.a.com".toList = "a.com".toList ∧
+    hostTail id {} "amp-m.www2.a.com".toList = "a.com".toList ∧
+    hostTail id {} "www.amp-mobile.a.com".toList = "a.com".toList ∧
+    hostTail id { stripIrrelevantSubdomains := false } "amp-www.a.com".toList = "www.a.com".toList ∧
+    startsWith (afterSub {} "www.a.com".toList) ampDash = false ∧
+    (∀ x ∈ splitOn "www.a.com".toList '.', decodePunycodeHostname id x = x) := by decide
 
 example : hostTail id {} "amp-madame.lefigaro.fr".toList = hostTail id {} "madame.lefigaro.fr".toList ∧
     hostTail id {} "www.m.lemonde.fr".toList = "lemonde.fr".toList ∧
@@ -700,14 +723,21 @@ theorem stripControl_all_space (w : Str) (h : w.all isSurrounding = true) :
       simp only [hc', Bool.not_false, if_true, List.all_cons, this, Bool.true_and]
       exact ih h.2
 
+/-- the cleaning pass of the url functions (`CONTROL_CHARS_RE.sub`, `strip`) forgets whitespace and
+control characters around the URL -/
+theorem cleanedUrl_surrounding (w1 w2 s : Str) (h1 : w1.all isSurrounding = true)
+    (h2 : w2.all isSurrounding = true) : cleanedUrl (w1 ++ s ++ w2) = cleanedUrl s := by
+  unfold cleanedUrl
+  have : stripControl (w1 ++ s ++ w2) = stripControl w1 ++ stripControl s ++ stripControl w2 := by
+    simp [stripControl, List.filter_append]
+  rw [this, C02.strip_surrounding _ _ _ (stripControl_all_space w1 h1) (stripControl_all_space w2 h2)]
+
 /-- **whitespace and control characters around the URL are irrelevant** for the cleaning
 pass (`CONTROL_CHARS_RE.sub`, `strip`, `upper_quoted`) -/
 theorem preClean_surrounding (w1 w2 s : Str) (h1 : w1.all isSurrounding = true)
     (h2 : w2.all isSurrounding = true) : preClean (w1 ++ s ++ w2) = preClean s := by
-  unfold preClean
-  have : stripControl (w1 ++ s ++ w2) = stripControl w1 ++ stripControl s ++ stripControl w2 := by
-    simp [stripControl, List.filter_append]
-  rw [this, C02.strip_surrounding _ _ _ (stripControl_all_space w1 h1) (stripControl_all_space w2 h2)]
+  show upperQuoted (cleanedUrl (w1 ++ s ++ w2)) = upperQuoted (cleanedUrl s)
+  rw [cleanedUrl_surrounding w1 w2 s h1 h2]
 
 /-- **… hence for `normalize_url(…, infer_redirection=False)`** on every URL that parses -/
 theorem norm_surrounding_ws (puny : Str → Str) (parse : Str → Option Parsed) (platform : Str → Str)
@@ -716,17 +746,40 @@ theorem norm_surrounding_ws (puny : Str → Str) (parse : Str → Option Parsed)
     normalizeUrl puny parse platform o false (w1 ++ s ++ w2) = normalizeUrl puny parse platform o false s :=
   (norm_clean_congr puny parse platform o false _ _ (by simpa using preClean_surrounding w1 w2 s h1 h2)).2 hparse
 
-/-- **… and with redirection inference** on URLs whose inference commutes with the cleaning
-(in particular when no redirect hint is found in either spelling); without this hypothesis the
-statement is false on the current tree — leading whitespace in front of a URL carrying a
-*relative* redirect target, known finding KF-C04-3 -/
-theorem norm_surrounding_ws_redirect_partial (puny : Str → Str) (parse : Str → Option Parsed)
-    (platform : Str → Str) (o : Opts) (w1 w2 s : Str) (_h1 : w1.all isSurrounding = true)
-    (_h2 : w2.all isSurrounding = true)
-    (hinf : preClean (infer (w1 ++ s ++ w2)) = preClean (infer s))
+/-- redirection inference commutes with the cleaning: `infer_redirection` looks for its hints in
+the cleaned url (`C15.infer_reads_cleaned`), so two strings with the same cleaned form have
+resolved forms with the same cleaned form -/
+theorem infer_clean_irrelevant (a b : Str) (h : cleanedUrl a = cleanedUrl b) :
+    preClean (infer a) = preClean (infer b) := by
+  rcases infer_clean_congr a b h with e | ⟨ea, eb⟩
+  · rw [e]
+  · rw [ea, eb]
+    show upperQuoted (cleanedUrl a) = upperQuoted (cleanedUrl b)
+    rw [h]
+
+/-- **the result depends on the argument through its cleaned form only**, with and without
+redirection inference, on every URL that parses: control characters anywhere and whitespace at
+the ends are irrelevant -/
+theorem norm_clean_irrelevant (puny : Str → Str) (parse : Str → Option Parsed) (platform : Str → Str)
+    (o : Opts) (ir : Bool) (a b : Str) (h : cleanedUrl a = cleanedUrl b)
+    (hparse : parse (prepared platform ir b).1 ≠ none) :
+    normalizeUrl puny parse platform o ir a = normalizeUrl puny parse platform o ir b := by
+  refine (norm_clean_congr puny parse platform o ir a b ?_).2 hparse
+  cases ir with
+  | true => simpa using infer_clean_irrelevant a b h
+  | false =>
+    show upperQuoted (cleanedUrl a) = upperQuoted (cleanedUrl b)
+    rw [h]
+
+/-- **… and with redirection inference** (the default), on every URL that parses, whatever the
+URL carries — no hint, an absolute or a relative redirect target, an AMP-cache host (the former
+known finding KF-C04-3 was the relative target behind leading whitespace) -/
+theorem norm_surrounding_ws_redirect (puny : Str → Str) (parse : Str → Option Parsed)
+    (platform : Str → Str) (o : Opts) (w1 w2 s : Str) (h1 : w1.all isSurrounding = true)
+    (h2 : w2.all isSurrounding = true)
     (hparse : parse (prepared platform true s).1 ≠ none) :
     normalizeUrl puny parse platform o true (w1 ++ s ++ w2) = normalizeUrl puny parse platform o true s :=
-  (norm_clean_congr puny parse platform o true _ _ (by simpa using hinf)).2 hparse
+  norm_clean_irrelevant puny parse platform o true _ _ (cleanedUrl_surrounding w1 w2 s h1 h2) hparse
 
 /-- … and the case of the hex digits is absorbed by `upper_quoted` on the whole URL before it is
 parsed (`C02.hex_case_irrelevant`) -/
@@ -741,5 +794,16 @@ theorem norm_hex_case (puny : Str → Str) (parse : Str → Option Parsed) (plat
 
 example : preClean " \x00\thttp://A.com/%c3%a9 \n\x7f".toList = preClean "http://A.com/%c3%a9".toList ∧
     (" \x00\t".toList).all isSurrounding = true := by decide
+
+/-- the shapes that used to tell the two spellings apart (KF-C04-3 and its relatives): a relative
+target behind a control character, a hint at the very start behind a blank, an empty target in
+front of a blank — through the model of `infer_redirection` (fuel form, `C15.infer_total`) -/
+example :
+    preClean (inferFuel inferTarget 40 "\x00http://a.com/x?redirect=/z".toList) =
+      preClean (inferFuel inferTarget 40 "http://a.com/x?redirect=/z".toList) ∧
+    inferFuel inferTarget 40 "\x00http://a.com/x?redirect=/z".toList = "http://a.com/z".toList ∧
+    preClean (inferFuel inferTarget 40 " url=http://b.com/x".toList) = "http://b.com/x".toList ∧
+    preClean (inferFuel inferTarget 40 "http://a.com/?url=https:// ".toList) =
+      "http://a.com/?url=https://".toList := by decide +kernel
 
 end Ural.Props.C04
